@@ -177,10 +177,13 @@ func (z *ZodNil[T, R]) PrefaultFunc(fn func() T) *ZodNil[T, R] {
 	return z.withInternals(in)
 }
 
-// Meta stores metadata in the global registry.
+// Meta returns a new schema with the given metadata stored in the global
+// registry; the receiver and its registry entry are unchanged.
 func (z *ZodNil[T, R]) Meta(meta core.GlobalMeta) *ZodNil[T, R] {
-	core.GlobalRegistry.Add(z, meta)
-	return z
+	in := z.internals.Clone()
+	clone := z.withInternals(in)
+	core.GlobalRegistry.Add(clone, meta)
+	return clone
 }
 
 // Describe registers a description in the global registry.
